@@ -35,8 +35,12 @@ Tc(id, beh, code, dur, exp, out, stream, expect, t, det, skip) ==
 \*  skipdef : defaults.skip_document_code in the front-matter (None = absent)
 \*  fault : "no" | "unreadable" | "unparsable" | "missing" (the given path does not exist)
 \*          | "nomatch" (the given file's name matches neither document pattern: it is silently not a test document)
+\*  tdef  : defaults.timeout in the front-matter: the per-test timeout of every test case that does not set its own
+\*          (None = absent; only used in Markdown documents run by the per-process executor)
 Doc(fmt, tfm, skipdef, fault, tests) ==
-    [fmt |-> fmt, tfm |-> tfm, skipdef |-> skipdef, fault |-> fault, tests |-> tests]
+    [fmt |-> fmt, tfm |-> tfm, skipdef |-> skipdef, fault |-> fault, tests |-> tests, tdef |-> None]
+\* effective per-test timeout: inline beats the document default
+OwnT(s, i, tc) == IF tc.t # None THEN tc.t ELSE s.docs[i].tdef
 
 \* the run
 \*  tcli : --timeout-seconds (None = not given)
@@ -139,9 +143,9 @@ ExceedsAt(s, i, x) ==    \* the command at x, if reached, runs longer than an ap
     LET tc == Assembled(s, i)[x]
         before == 0      \* replayed scenarios have at most one slow test case per document
         T == TotalLimit(s, i)
-    IN ~tc.det /\ tc.dur > 0 /\ ((tc.t # None /\ ~Script(s, i) /\ tc.dur > tc.t) \/ (T # None /\ tc.dur > T))
+    IN ~tc.det /\ tc.dur > 0 /\ ((OwnT(s, i, tc) # None /\ ~Script(s, i) /\ tc.dur > OwnT(s, i, tc)) \/ (T # None /\ tc.dur > T))
 FirstLimit(s, i, x) == LET tc == Assembled(s, i)[x] IN
-    MinDefined(IF ~Script(s, i) THEN tc.t ELSE None, TotalLimit(s, i))
+    MinDefined(IF ~Script(s, i) THEN OwnT(s, i, tc) ELSE None, TotalLimit(s, i))
 RECURSIVE WaitUpTo(_, _, _)
 WaitUpTo(s, i, x) == IF x = 0 THEN 0 ELSE Assembled(s, i)[x].wait + WaitUpTo(s, i, x - 1)
 C14ok(s, o) ==
